@@ -223,6 +223,21 @@ func c12Exec(cs c12Case) (*fw.Violation, *harness.Client) {
 			}
 			h.Conns[0].Stalled = false
 			h.ServerClose(0)
+		case "rst-no-error-mid-response", "rst-cancel-mid-response":
+			// the response head and part of the body have arrived (content-length 11, 5 octets so far) when the
+			// server resets the stream, with NO_ERROR or with CANCEL: the response is incomplete either way, and
+			// the caller must be told so
+			feed(serialize(script[:3]))
+			code := uint32(0)
+			if cs.Name == "rst-cancel-mid-response" {
+				code = 8
+			}
+			feed(peer.RstStream(s1, code).Bytes())
+			if calls[0].Done && calls[0].Err == nil {
+				return mk("success-without-complete-response", shape, fmt.Sprintf("request %q reported success (status %d, body %q) although its stream was reset after 5 of the 11 octets the response declared, before END_STREAM", calls[0].Tag, calls[0].Status, calls[0].Body)), h
+			}
+			feed(serialize(script[4:7]))
+			feed(serialize(script[8:]))
 		case "goaway-two-step-then-finish":
 			// graceful shutdown as RFC 7540 6.8 describes it: an announcing GOAWAY(2^31-1), then the real one naming
 			// the first request, which is then answered. The second request is disclaimed by the second GOAWAY: it
@@ -541,7 +556,7 @@ func runC12(c *fw.Ctx) {
 		do(c12Case{Family: "mutate", Mut: m})
 	}
 	c.Family("mutate")
-	for _, n := range []string{"rst-one", "rst-refused", "many-callers-behind-stalled-write", "many-callers-then-close", "goaway-0", "goaway-1-then-finish", "goaway-two-step-then-finish", "goaway-error-mid-response", "goaway-covering-then-new-connection-then-close", "oversized-frame", "garbage", "push-promise", "silence", "late-response-after-timeout", "window-update-overflow", "settings-invalid", "headers-on-unknown-stream", "data-before-headers", "ping-flood", "early-response-to-blocked-upload", "early-reset-of-blocked-upload", "not-reading-ping-flood", "not-reading-settings-flood"} {
+	for _, n := range []string{"rst-one", "rst-refused", "rst-no-error-mid-response", "rst-cancel-mid-response", "many-callers-behind-stalled-write", "many-callers-then-close", "goaway-0", "goaway-1-then-finish", "goaway-two-step-then-finish", "goaway-error-mid-response", "goaway-covering-then-new-connection-then-close", "oversized-frame", "garbage", "push-promise", "silence", "late-response-after-timeout", "window-update-overflow", "settings-invalid", "headers-on-unknown-stream", "data-before-headers", "ping-flood", "early-response-to-blocked-upload", "early-reset-of-blocked-upload", "not-reading-ping-flood", "not-reading-settings-flood"} {
 		do(c12Case{Family: "hostile", Name: n})
 	}
 	c.Family("hostile")
